@@ -22,55 +22,64 @@ type PathResult struct {
 	Disch    int
 	Inconcl  int
 	Queries  int
+	Tweaks   int
 	Vector   []string // input vector under the path's model (for validation)
 	Observes []string
 	KnownHit []string
 }
 
 type FailRec struct {
-	Msg    string
-	Vector []string
-	Kind   string // assert | panic
-	Known  string
+	Msg      string
+	Vector   []string
+	Named    []string
+	Observes []string
+	Kind     string // assert | panic
+	Known    string
 }
 
 type HarnessRun struct {
-	eng   *Engine
-	name  string
-	fn    *ssa.Function
-	mu    sync.Mutex
-	cond  *sync.Cond
-	work  [][]int
-	busy  int
-	stop  bool
+	eng  *Engine
+	name string
+	fn   *ssa.Function
+	mu   sync.Mutex
+	cond *sync.Cond
+	work []workItem
+	busy int
+	stop bool
 
-	paths        int
-	outcomes     map[string]int
-	decisions    int
-	fails        []FailRec
-	covers       map[string]bool
-	unsupported  map[string]int
-	boundHits    map[string]int
-	asserts      int
-	discharged   int
-	inconclusive int
-	queries      int
-	steps        int
-	funcs        map[string]bool
-	stubs        map[string]bool
-	samples      []PathResult // paths kept for native validation
-	sampleEvery  int
-	maxPaths     int
-	truncated    bool
+	paths                  int
+	outcomes               map[string]int
+	decisions              int
+	fails                  []FailRec
+	covers                 map[string]bool
+	unsupported            map[string]int
+	boundHits              map[string]int
+	asserts                int
+	discharged             int
+	inconclusive           int
+	queries                int
+	tweaks                 int
+	steps                  int
+	funcs                  map[string]bool
+	stubs                  map[string]bool
+	samples                []PathResult // paths kept for native validation
+	sampleEvery            int
+	maxPaths               int
+	truncated              bool
 	nSat, nUnsat, nUnknown int
-	solveTime    time.Duration
-	knownHits    map[string]int
-	maxFails     int
+	solveTime              time.Duration
+	knownHits              map[string]int
+	maxFails               int
 }
 
-func (h *HarnessRun) push(prefix []int) {
+type workItem struct {
+	prefix []int
+	model  Model
+}
+
+func (h *HarnessRun) push(prefix []int, m Model) {
 	h.mu.Lock()
-	h.work = append(h.work, prefix)
+	h.work = append(h.work, workItem{prefix, m})
 	h.mu.Unlock()
 	h.cond.Signal()
 }
@@ -80,9 +89,12 @@ func newExec(e *Engine, h *HarnessRun, s *Solver, decisions []int) *Exec {
 		funcsSeen: map[*ssa.Function]bool{}, stubsHit: map[string]bool{}, knownHit: map[string]bool{}}
 }
 
-func (h *HarnessRun) runPath(s *Solver, prefix []int) (res PathResult) {
-	x := newExec(h.eng, h, s, prefix)
-	x.model = Model{} // empty pc: every assignment is a model
+func (h *HarnessRun) runPath(s *Solver, wi workItem) (res PathResult) {
+	x := newExec(h.eng, h, s, wi.prefix)
+	x.model = wi.model
+	if x.model == nil && len(wi.prefix) == 0 {
+		x.model = Model{} // empty pc: every assignment is a model
+	}
 	defer func() {
 		res.Trace = x.trace
 		res.Steps = x.steps
@@ -90,6 +102,7 @@ func (h *HarnessRun) runPath(s *Solver, prefix []int) (res PathResult) {
 		res.Disch = x.discharged
 		res.Inconcl = x.inconclusive
 		res.Queries = x.queries
+		res.Tweaks = x.tweaks
 		for c := range x.covers {
 			res.Covers = append(res.Covers, c)
 		}
@@ -123,7 +136,7 @@ func (h *HarnessRun) runPath(s *Solver, prefix []int) (res PathResult) {
 				res.Detail = v.desc
 				m := x.currentModel()
 				if m != nil {
-					res.Fails = append(res.Fails, FailRec{Msg: "panic: " + v.desc, Vector: x.vector(m), Kind: "panic"})
+					res.Fails = append(res.Fails, FailRec{Msg: "panic: " + v.desc, Vector: x.vector(m), Named: x.namedVector(m), Observes: x.renderAllObs(m), Kind: "panic"})
 				} else {
 					res.Inconcl++
 				}
@@ -134,7 +147,7 @@ func (h *HarnessRun) runPath(s *Solver, prefix []int) (res PathResult) {
 			res.Outcome = "ok"
 		}
 		for _, f := range x.fails {
-			res.Fails = append(res.Fails, FailRec{Msg: f.Msg, Vector: x.vector(f.Model), Kind: "assert"})
+			res.Fails = append(res.Fails, FailRec{Msg: f.Msg, Vector: x.vector(f.Model), Named: x.namedVector(f.Model), Observes: x.renderObsList(f.Obs, f.Model), Kind: "assert"})
 		}
 		if res.Outcome == "ok" || res.Outcome == "known" {
 			if m := x.currentModel(); m != nil {
@@ -164,7 +177,7 @@ func (x *Exec) currentModel() Model {
 
 func (h *HarnessRun) run(workers int, deadline time.Time) {
 	h.cond = sync.NewCond(&h.mu)
-	h.work = [][]int{{}}
+	h.work = []workItem{{}}
 	var wg sync.WaitGroup
 	for w := 0; w < workers; w++ {
 		wg.Add(1)
@@ -218,6 +231,7 @@ func (h *HarnessRun) run(workers int, deadline time.Time) {
 				h.discharged += res.Disch
 				h.inconclusive += res.Inconcl
 				h.queries += res.Queries
+				h.tweaks += res.Tweaks
 				for _, c := range res.Covers {
 					h.covers[c] = true
 				}
